@@ -117,25 +117,25 @@ H3Msg == NBytes(SSub(SMul(FromNat(7), H3K), SMul(Mod(PMul(H3K, HY)[1], N), FromB
 H3Sig == AdEncrypt(HKey, HY, H3Msg, << "two", TRUE, NBytes(H3K), TRUE, Rnd32(35) >>)[2]
 H3Obj == AdDecrypt(HDec, H3Sig)[2]
 
-Cases ==
+Cases == <<
        { << "pipe", k, d, m, s >> : k \in 1..(IF Thorough THEN 7 ELSE 3), d \in 1..(IF Thorough THEN 6 ELSE 3),
                                     m \in (IF Thorough THEN 1..9 ELSE {1, 3, 4, 6, 8}),
                                     s \in (IF Thorough THEN 1..9 ELSE 1..3) }
-  \cup { << "pipe", k, d, ((k * 7 + d) % 9) + 1, ((k + d * 3) % 9) + 1 >> : k \in 1..7, d \in 1..6 }
-  \cup { << "twin", k, d, m, s >> : k \in 1..3, d \in 1..3, m \in {1, 4, 8}, s \in {1, 3} }
-  \cup { << "encf", v >> : v \in 1..16 }
-  \cup { << "flipv", b >> : b \in 0..1295 }
-  \cup { << "flipd", b >> : b \in 0..1295 }
-  \cup { << "flipr", b >> : b \in 0..1295 }
-  \cup { << "flipm", b >> : b \in { x \in 0..255 : Thorough \/ x % 4 = 3 } }
-  \cup { << "flipk", w, b >> : w \in {1, 2}, b \in { x \in 0..263 : Thorough \/ x % 4 = 3 } }
-  \cup { << "ssp", v, op >> : v \in {1, 2}, op \in 1..3 }
-  \cup { << "scal", f, v, op >> : f \in {0, 3, 4, 5}, v \in 1..9, op \in 1..3 }
-  \cup { << "pt", f, v, op >> : f \in {1, 2}, v \in 1..12, op \in 1..3 }
-  \cup { << "vk", v >> : v \in 1..14 }
-  \cup { << "dec", v >> : v \in 1..7 }
-  \cup { << "dect", t >> : t \in 1..8 }
-  \cup { << "rec", v >> : v \in 1..19 }
+     , { << "pipe", k, d, ((k * 7 + d) % 9) + 1, ((k + d * 3) % 9) + 1 >> : k \in 1..7, d \in 1..6 }
+     , { << "twin", k, d, m, s >> : k \in 1..3, d \in 1..3, m \in {1, 4, 8}, s \in {1, 3} }
+     , { << "encf", v >> : v \in 1..16 }
+     , { << "flipv", b >> : b \in 0..1295 }
+     , { << "flipd", b >> : b \in 0..1295 }
+     , { << "flipr", b >> : b \in 0..1295 }
+     , { << "flipm", b >> : b \in { x \in 0..255 : Thorough \/ x % 4 = 3 } }
+     , { << "flipk", w, b >> : w \in {1, 2}, b \in { x \in 0..263 : Thorough \/ x % 4 = 3 } }
+     , { << "ssp", v, op >> : v \in {1, 2}, op \in 1..3 }
+     , { << "scal", f, v, op >> : f \in {0, 3, 4, 5}, v \in 1..9, op \in 1..3 }
+     , { << "pt", f, v, op >> : f \in {1, 2}, v \in 1..12, op \in 1..3 }
+     , { << "vk", v >> : v \in 1..14 }
+     , { << "dec", v >> : v \in 1..7 }
+     , { << "dect", t >> : t \in 1..8 }
+     , { << "rec", v >> : v \in 1..19 }>>
 
 AV(asig, pk, msg, enckey) == [ e |-> "AdaptorVerify", in |-> [ asig |-> asig, pk |-> pk, msg |-> msg, enckey |-> enckey ] ]
 AD(deckey, asig) == [ e |-> "AdaptorDecrypt", in |-> [ deckey |-> deckey, asig |-> asig ] ]
@@ -270,19 +270,23 @@ ExpandRec(v) ==
 NN == ToNat(N)
 TinyOffX == FromNat(CHOOSE j \in 1..200 : ~LiftX(FromNat(j))[1])
 TinyMsgs == << Zero, One, FromNat(NN - 1), N, Add(N, Two), Max256 >>
-TinyFew(S) == IF NN < 50 THEN S ELSE { x \in S : x % 23 \in {1, 5, 22} \/ x = NN - 1 }
+Big == NN >= 50                                   \* order 199: sub-sampled where the full product would be millions of records
+TinyFew(S) == IF ~Big THEN S ELSE { x \in S : x % 23 \in {1, 5, 22} \/ x = NN - 1 }
+TinyYs == IF ~Big THEN 1..(NN-1) ELSE {1, 4, 100, NN - 1}
 TinyVal(x) == IF x = NN + 3 \/ x = 2 * NN + 2 THEN Max256 ELSE FromNat(x)
 TinyHonest == { << d, y, m, k1, k2 >> : d \in {1, NN - 1, 5}, y \in {1, NN - 1, 4}, m \in {1, 3}, k1 \in {1, 6}, k2 \in {3} }
-TinyCases ==
-       { << "tpipe", d, y, m, k1, k2 >> : d \in TinyFew(1..(NN-1)), y \in TinyFew(1..(NN-1)), m \in (IF Thorough THEN 1..6 ELSE {1, 3, 4, 6}), k1 \in 0..NN, k2 \in (IF Thorough THEN {1, 5} ELSE {1}) }
-  \cup { << "tpipe", d, y, m, 2, k2 >> : d \in {3}, y \in {NN - 2}, m \in {2}, k2 \in 0..(NN + 1) }
-  \cup { << "tpipedef", d, y, m, a >> : d \in 0..(NN + 1), y \in 1..(NN-1), m \in {1, 3, 6}, a \in {1, 2, 9} }
-  \cup { << "tver", h, f, val >> : h \in TinyHonest, f \in {1, 2}, val \in 0..NN }
-  \cup { << "tver", h, f, val >> : h \in TinyHonest, f \in {3, 5}, val \in 0..(NN + 3) }
-  \cup { << "tver", h, 4, val >> : h \in TinyHonest, val \in 0..(2 * NN + 2) }
-  \cup { << "tverk", h, w, val >> : h \in TinyHonest, w \in 1..3, val \in 1..(NN - 1) }
-  \cup { << "tdec", h, val >> : h \in TinyHonest, val \in { v \in 0..(NN + 3) : ~IsZero(Mod(TinyVal(v), N)) } }
-  \cup { << "trec", h, r, s, y >> : h \in { x \in TinyHonest : x[1] = 5 /\ x[4] = 6 /\ (Thorough \/ (x[2] = 4 /\ x[3] = 1)) }, r \in 0..(NN-1), s \in 1..(NN-1), y \in 1..(NN-1) }
+TinyRecH == { x \in TinyHonest : x[1] = 5 /\ x[4] = 6 /\ ((Thorough /\ ~Big) \/ (x[2] = 4 /\ x[3] = 1)) }
+TinyCases == <<
+       { << "tpipe", d, y, m, k1, k2 >> : d \in TinyFew(1..(NN-1)), y \in TinyYs, m \in (IF Thorough /\ ~Big THEN 1..6 ELSE {1, 3, 4, 6}), k1 \in 0..NN,
+                                           k2 \in (IF Thorough /\ ~Big THEN {1, 5} ELSE {1}) }
+     , { << "tpipe", d, y, m, 2, k2 >> : d \in {3}, y \in {NN - 2}, m \in {2}, k2 \in 0..(NN + 1) }
+     , { << "tpipedef", d, y, m, a >> : d \in TinyFew(0..(NN + 1)) \cup {0, NN, NN + 1}, y \in TinyYs, m \in {1, 3, 6}, a \in {1, 2, 9} }
+     , { << "tver", h, f, val >> : h \in TinyHonest, f \in {1, 2}, val \in 0..NN }
+     , { << "tver", h, f, val >> : h \in TinyHonest, f \in {3, 5}, val \in 0..(NN + 3) }
+     , { << "tver", h, 4, val >> : h \in TinyHonest, val \in 0..(2 * NN + 2) }
+     , { << "tverk", h, w, val >> : h \in TinyHonest, w \in 1..3, val \in 1..(NN - 1) }
+     , { << "tdec", h, val >> : h \in TinyHonest, val \in { v \in 0..(NN + 3) : ~IsZero(Mod(TinyVal(v), N)) } }
+     , { << "trec", h, r, s, y >> : h \in TinyRecH, r \in 0..(NN-1), s \in 1..(NN-1), y \in (IF ~Big THEN 1..(NN-1) ELSE {4, NN - 4}) }>>
 TinySigOf(h) == AdEncrypt(NBytes(FromNat(h[1])), PMulG(FromNat(h[2])), NBytes(TinyMsgs[h[3]]),
                           << "two", TRUE, NBytes(FromNat(h[4])), TRUE, NBytes(FromNat(h[5])) >>)[2]
 ExpandTiny(c) ==
@@ -347,7 +351,8 @@ Expand(c) ==
 VARIABLES phase, cur, rec
 vars == << phase, cur, rec >>
 Init == phase = "pick" /\ cur = << >> /\ rec = << >>
-Pick == phase = "pick" /\ \E c \in Cases : cur' = c /\ phase' = "eval" /\ rec' = << >>
+\* Cases is a tuple of sets of descriptors (no union is ever built: TLC's set union is quadratic)
+Pick == phase = "pick" /\ \E j \in DOMAIN Cases : \E c \in Cases[j] : cur' = c /\ phase' = "eval" /\ rec' = << >>
 Eval == phase = "eval" /\ LET x == Expand(cur) IN rec' = [ e |-> x.e, in |-> x.in, out |-> Out(x) ]
         /\ phase' = "done" /\ cur' = cur
 Next == Pick \/ Eval
